@@ -172,7 +172,7 @@ def run(tools, seed, tier):
                 res["cases"].append(dict(
                     case=c, kind=o["kind"], text=o["text"], ms=o.get("ms"),
                     repeats=o.get("repeats", 0), nondet=o.get("nondet"), fmt=o.get("fmt"), sigs=o.get("sigs"),
-                    regen=regen.get(o["id"]),
+                    regen=regen.get(o["id"]), writes=o.get("writes"), fail_write=o.get("fail_write"),
                     src_pkg=dict(path=mi.group(1), name=mi.group(2)) if mi else {},
                     src_specs=src_specs(inp),
                     pkg_names={strip_vendor(a): b for a, b in pk},
